@@ -60,11 +60,37 @@ def run_case(tape, tier):
     cfg = dict(tls=tls, bs=bs, cap=cap, nconn=nconn, rates=rates, plans=plans)
     actions = []
 
-    with netlab.Lab(tape, res, tls=tls, bs=bs, capacity=cap, rates=rates, ports=(50001, 50002, 50003)) as lab:
+    # the server starts listening late: the clients (set up to retry on a timeout) queue before they are connected and
+    # go through refused attempts and retry periods first
+    late = 1 + tape.draw("late_server_steps", 30) if tape.flag("late_server", 1, 5) else 0
+    tyme = [0.0]
+    ckwa = dict(reconnectable=True, tymeout=tape.pick("retry_tymeout", [0.5, 2.0])) if late else {}
+    with netlab.Lab(tape, res, tls=tls, bs=bs, capacity=cap, rates=rates, ports=(50001, 50002, 50003),
+                    tymth=lambda: tyme[0]) as lab:
         net = lab.net
-        lab.make_server()
+        lab.make_server(open_=not late)
+        opened = [not late]
+
+        def open_server():
+            if not opened[0]:
+                ok_ = lab.as_owner("server", lab.server.reopen)
+                assert ok_, "server did not open"
+                opened[0] = True
+                res.faults["server_listens_late"] += 1
+        appbuf = []  # per client: (txbs, rxbs) supplied by the application and shared with the Client, or None
         for i in range(nconn):
-            lab.make_client()
+            if tape.flag("own_buffers", 1, 3):
+                # the application supplies the buffers (the way a protocol layer shares them): it queues by extending its own
+                # txbs and reads what arrived from its own rxbs
+                appbuf.append((bytearray(), bytearray()))
+                lab.make_client(txbs=appbuf[-1][0], rxbs=appbuf[-1][1], **ckwa)
+                res.probes["caller_supplied_buffers"] += 1
+            else:
+                appbuf.append(None)
+                lab.make_client(**ckwa)
+
+        def crx(i):
+            return bytes(appbuf[i][1]) if appbuf[i] is not None else bytes(lab.clients[i].rxbs)
         sent = [dict(c2s=bytearray(), s2c=bytearray()) for _ in range(nconn)]
         nxt = [dict(c2s=0, s2c=0) for _ in range(nconn)]
         off = [dict(c2s=0, s2c=0) for _ in range(nconn)]
@@ -81,7 +107,10 @@ def run_case(tape, tier):
                     return False
             data = pattern(base, off[i][d], plan[k])
             if d == "c2s":
-                lab.clients[i].tx(data)
+                if appbuf[i] is not None:
+                    appbuf[i][0].extend(data)
+                else:
+                    lab.clients[i].tx(data)
             else:
                 rm.tx(data)
             sent[i][d].extend(data)
@@ -94,7 +123,7 @@ def run_case(tape, tier):
         def check_prefix(final=False):
             for i in range(nconn):
                 c = lab.clients[i]
-                got = bytes(c.rxbs)
+                got = crx(i)
                 exp = bytes(sent[i]["s2c"])
                 res.comparisons += 1
                 if exp[:len(got)] != got:
@@ -132,13 +161,18 @@ def run_case(tape, tier):
             weights.append(dict(svc_client=4, tx_c2s=2, tx_s2c=2, svc_server=5, net=5)[a[0]] + tape.draw("w", 3))
         nsteps = 20 + tape.draw("nsteps", 120 if tier == "quick" else 400)
         ok = True
-        for _ in range(nsteps):
+        for step_ in range(nsteps):
             a = acts[tape.weighted("actor", weights)]
             actions.append(a)
+            if late:
+                tyme[0] += 0.125
+                if step_ >= late:
+                    open_server()
             if a[0] == "svc_client":
                 lab.svc_client(a[1])
             elif a[0] == "svc_server":
-                lab.svc_server()
+                if opened[0]:
+                    lab.svc_server()
             elif a[0] == "net":
                 net.step()
             elif a[0] == "tx_c2s":
@@ -154,6 +188,9 @@ def run_case(tape, tier):
         if ok:
             net.faults_on = False
             rounds = 0
+            open_server()
+            # (the clock stands still in the drain: an attempt in progress is not cut short by the retry timer however slow
+            # the pipe makes the handshake; refused attempts are retried without waiting for it)
             while rounds < 3000:
                 rounds += 1
                 for i in range(nconn):
@@ -164,7 +201,7 @@ def run_case(tape, tier):
                 net.step()
                 res.steps += 1
                 done = all(nxt[i][d] >= len(plans[i][d]) for i in range(nconn) for d in ("c2s", "s2c"))
-                if done and all(bytes(lab.clients[i].rxbs) == bytes(sent[i]["s2c"]) and lab.remoter_for(i) is not None and
+                if done and all(crx(i) == bytes(sent[i]["s2c"]) and lab.remoter_for(i) is not None and
                                 bytes(lab.remoter_for(i).rxbs) == bytes(sent[i]["c2s"]) for i in range(nconn)):
                     break
                 if not check_prefix():
